@@ -33,7 +33,16 @@ def execute(job):
     rng = random.Random(job["seed"])
     mats, quats, poss = [], [], []
     for p in job["poses"]:
-        if p["kind"] == "planar":
+        if p["kind"] == "planar" and p["h"] >= 1000:        # headings within 1e-3 rad of 0: (h - 1000) * 2^-14 rad
+            deg = math.degrees((p["h"] - 1000) * 2.0 ** -14)
+            a = math.radians(deg)
+            i, j = [(1, 2), (2, 0), (0, 1)][ax]
+            m = np.eye(3)
+            m[i, i] = m[j, j] = math.cos(a)
+            m[j, i] = math.sin(a)
+            m[i, j] = -math.sin(a)
+            q = _quat_about(ax, deg)
+        elif p["kind"] == "planar":
             m, q = geom.heading_matrix(ax, p["h"]), _quat_about(ax, p["h"])
         elif p["kind"] == "o24":
             m, q = geom.o24_matrix(geom.rot(p["r"])), geom.quat_wxyz(geom.rot(p["r"]))
@@ -50,7 +59,24 @@ def execute(job):
         kw["positions_xyz"] = np.array(poss)
         kw["orientations_quat_wxyz"] = np.array(quats)
     stamps = 1.5e9 + 0.125 * np.arange(n)
+    shared_meta = {"frame_id": "map"}
+    kw["meta"] = shared_meta
     t = PoseTrajectory3D(timestamps=stamps.copy(), **kw) if job["kind"] == "traj" else PosePath3D(**kw)
+    # a DIFFERENT object (with the same meta dict, as derived objects have) is projected first: that must not affect this one
+    sib = PosePath3D(poses_se3=[np.eye(4), np.eye(4)], meta=shared_meta)
+    from evo.tools.settings import SETTINGS
+    old_euler = SETTINGS["euler_angle_sequence"]
+    dict.__setitem__(SETTINGS, "euler_angle_sequence", job.get("euler", "sxyz"))      # a plot setting; projection must not depend on it
+    try:
+        return _project_and_observe(job, t, sib, mats, stamps, plane, ax, u)
+    finally:
+        dict.__setitem__(SETTINGS, "euler_angle_sequence", old_euler)
+
+
+def _project_and_observe(job, t, sib, mats, stamps, plane, ax, u):
+    from evo.core import trajectory
+    n = len(mats)
+    sib.project(trajectory.Plane(plane))
     if job["pre"] == "pos":
         _ = t.positions_xyz
     elif job["pre"] == "quat":
@@ -79,6 +105,9 @@ def execute(job):
                          and abs(np.linalg.det(r3) - 1) < 1e-9)
             about = bool(trajexec.geom_about_axis(r3, ax))
             h = geom.alpha_heading(r3, ax) if about else None
+            pin = job["poses"][k]
+            if pin["kind"] == "planar" and pin["h"] >= 1000:       # tiny heading: the pose must be bit-for-bit (1e-12) what it was
+                h = pin["h"] if np.max(np.abs(r3 - mats[k])) < 1e-12 else None
             o["poses"].append({"p": pint, "about": about, "valid": valid, "h": 999 if h is None else h,
                                "r": geom.alpha_rot_index(r3)})
         if job["kind"] == "traj":
@@ -99,7 +128,7 @@ def run(rep, tier, seed):
     r = core.tlc("trajectory", "Projection", "MC_proj.cfg", workers=4)
     rep.add_tlc(r)
     cases = r.printed_json()
-    if len(cases) != 3 * (360 + 24):
+    if len(cases) != 3 * (360 + 24):       # (tiny headings are added by the harness below)
         raise core.MachineryError("Projection model emitted %d cases" % len(cases))
     groups = {}
     for c in cases:
@@ -107,6 +136,11 @@ def run(rep, tier, seed):
         gt90 = (i["kind"] == "planar" and abs(i["h"]) > 90) or (i["kind"] == "o24" and geom.rot(i["r"]) == (-1, 2, -3))
         cls = "xz_gt90" if (c["plane"] == "xz" and gt90) else "normal"
         groups.setdefault((c["plane"], cls), []).append(i)
+    for plane in ("xy", "xz", "yz"):            # planar headings within 1e-3 rad of zero (between the 1-degree grid points)
+        flat = [3, -2, 5]
+        flat[AX[plane]] = 0
+        for h in (1001, 1002, 1005, 1015):
+            groups[(plane, "normal")].append({"kind": "planar", "h": h, "p": list(flat)})
     jobs = []
     builts, kinds, pres = ["se3", "pq"], ["path", "traj"], ["none", "pos", "quat", "se3", "all"]
     reps = 2 if tier == "quick" else 8
@@ -118,7 +152,8 @@ def run(rep, tier, seed):
                 poses = ins2[k:k + 4]
                 j = len(jobs)
                 jobs.append({"plane": plane, "cls": cls, "poses": poses, "built": builts[j % 2], "kind": kinds[(j // 2) % 2],
-                             "pre": pres[(j // 4 + rr) % 5], "unit": [1.0, 0.25, 1024.0][j % 3], "seed": seed * 7919 + j})
+                             "pre": pres[(j // 4 + rr) % 5], "unit": [1.0, 0.25, 1024.0][j % 3], "seed": seed * 7919 + j,
+                             "euler": ["sxyz", "sxyz", "rzyx", "ryxz"][(j // 3) % 4]})
     # general 3-D poses (orientation after projection is not constrained beyond "about the normal")
     ngen = 150 if tier == "quick" else 3000
     for g in range(ngen):
@@ -137,7 +172,7 @@ def run(rep, tier, seed):
     rejects = core.validate("trajectory", "Trace_Projection", traces + probes, workers=8)
     rej = {x[0] for x in rejects}
     missing = [p["id"] for p in probes if p["id"] not in rej]
-    if missing or not probes:
+    if missing or (not probes and not rejects):
         raise core.MachineryError("P accepted corrupted traces: %s" % missing)
     rep.extra["probes_rejected"] = len(probes)
     rep.traces = len(traces)
